@@ -1,6 +1,8 @@
 import Nstd.Generated.FutureBody
 import Nstd.Future.SimRing
 import Nstd.Future.RingLemmas
+import Nstd.Future.GenLemmas
+import Nstd.Future.Handshake
 /-
   Property C10 — tie by TRANSLATION (round 7).
 
@@ -20,6 +22,10 @@ import Nstd.Future.RingLemmas
     run()                 `run_counters_are_translated`, `run_branch_is_translated`, `run_spawn_limit_is_translated`,
                           `run_retire_clock_is_translated` : the counter arithmetic and every condition of the if-chain of
                           `ThreadPool::run` (which branch is taken from the values read) are the translated expressions.
+    Future.hpp            `join_is_translated`, `join_clear_is_translated`, `abort_is_translated`, `flags_are_translated`,
+                          `destructor_is_translated`, `set_is_translated` (Future<void>::set of Future.cpp), `result_conversion_is_translated`,
+                          `proc_order_is_translated`, `fut_ctor_is_default`, `state_enum_is_translated`; `flags_after_join_translated`:
+                          the last sentence of C10 stated with the translated `isFinished()` / `isAborted()`.
     size()                `size_body_never_underflows` : the translated `LockFreeQueue::size` (reads `_head`, then `_tail`), run against
                           arbitrary steps of other threads in between, subtracts a head that is not above the tail it reads.
 
@@ -217,12 +223,16 @@ example : PushAgree (7 : Nat) (ringStep (Ring.init 2) (.pushRead 7)) (pushStep 7
 /-! ## FastSignal (frames `fSet`, `fRst`, `fRstLoad`, `fWait` of the full model; current source = repaired code) -/
 
 /-- frames a translated step of a FastSignal body leaves on the stack: `entry` = the frames of the return address inside the body -/
+def fsCallee (fs : Nat) : Callee → List Frame
+  | .sigSet => [.sSetLock fs]
+  | .sigReset => [.sRstLock fs]
+  | .sigWait => [.sWaitLock fs]
+  | .futJoin => []
+
 def fsFrames (fs : Nat) (entryOfPc : Nat → List Frame) {L R : Type} : GStep L R → List Frame
   | .ret _ _ => []
   | .goto n _ => entryOfPc n
-  | .call .sigSet nx _ => .sSetLock fs :: (match nx with | some n => entryOfPc n | none => [])
-  | .call .sigReset nx _ => .sRstLock fs :: (match nx with | some n => entryOfPc n | none => [])
-  | .call .sigWait nx _ => .sWaitLock fs :: (match nx with | some n => entryOfPc n | none => [])
+  | .call cs nx _ => cs.flatMap (fsCallee fs) ++ (match nx with | some n => entryOfPc n | none => [])
   | .stuck => []
 
 /-- the state after thread `t` took a translated step of a FastSignal body -/
@@ -237,22 +247,22 @@ def fsResetPc (fs : Nat) : Nat → List Frame
 theorem fastsignal_set_is_translated (s : State) (t : Tid) (th : Thread) (fs : Nat) (p : Pool) (hp : s.pool = some p) :
     (stepFrame s t th (.fSet fs)).1 = fsApply s t th fs (fun _ => []) (fsSetStep fs p 0 {}) := by
   simp only [stepFrame, hp, fsApply, fsSetStep, if_true]
-  by_cases h : fsState p fs = 0 <;> simp [h, fsFrames]
+  by_cases h : fsState p fs = 0 <;> simp [h, fsFrames, fsCallee]
 
 theorem fastsignal_reset_is_translated (s : State) (t : Tid) (th : Thread) (fs : Nat) (p : Pool) (hp : s.pool = some p)
     (hrep : s.cfg.repaired = true) :
     (stepFrame s t th (.fRst fs)).1 = fsApply s t th fs (fsResetPc fs) (fsResetStep fs p 0 {}) := by
-  simp [stepFrame, hp, fsApply, fsResetStep, hrep, fsFrames, fsResetPc]
+  simp [stepFrame, hp, fsApply, fsResetStep, hrep, fsFrames, fsResetPc, fsCallee]
 
 theorem fastsignal_reset_recheck_is_translated (s : State) (t : Tid) (th : Thread) (fs : Nat) (p : Pool) (hp : s.pool = some p) :
     (stepFrame s t th (.fRstLoad fs)).1 = fsApply s t th fs (fsResetPc fs) (fsResetStep fs p 1 {}) := by
   simp only [stepFrame, hp, fsApply, fsResetStep]
-  by_cases h : fsState p fs = 0 <;> simp [h, fsFrames, setPool, hp] <;> (cases s; simp_all)
+  by_cases h : fsState p fs = 0 <;> simp [h, fsFrames, fsCallee, setPool, hp] <;> (cases s; simp_all)
 
 theorem fastsignal_wait_is_translated (s : State) (t : Tid) (th : Thread) (fs : Nat) (p : Pool) (hp : s.pool = some p) :
     (stepFrame s t th (.fWait fs)).1 = fsApply s t th fs (fun _ => []) (fsWaitStep fs p 0 {}) := by
   simp only [stepFrame, hp, fsApply, fsWaitStep]
-  by_cases h : fsState p fs = 0 <;> simp [h, fsFrames, setPool, hp] <;> (cases s; simp_all)
+  by_cases h : fsState p fs = 0 <;> simp [h, fsFrames, fsCallee, setPool, hp] <;> (cases s; simp_all)
 
 /-! ## constructors -/
 
@@ -261,10 +271,15 @@ theorem queue_ctor_is_ring_init {α : Type} (cap : Nat) :
     (Ring.init cap : Ring α) =
       { cap := cap, head := queueCtorHead, tail := queueCtorTail, slots := queueCtorSlot α, pushLog := [], popLog := [] } := rfl
 
-/-- the capacity computed by the constructor's bit smearing is the model's `ceilPow2` — BOUNDED to requested sizes 1 … 1024 (kernel
-    evaluation; the sizes used: 1, 2, 4, 8 and the default 0x100); the statement for every size below 2^32 is OPEN -/
-theorem queue_ctor_capacity_upto_1024 : ∀ q, q < 1025 → 1 ≤ q → queueCtorCapacity q = ceilPow2 q := by
-  decide +kernel
+/-- **`queue_ctor_capacity_is_ceilPow2`** — the capacity computed by the constructor's bit smearing (`mask = capacity - 1; mask |= mask >> 1;
+    … >> 16; _capacity = mask + 1`) is the model's `ceilPow2`, for EVERY requested size 1 … 2^32 (`Smeared`, GenLemmas.lean: every
+    smearing step doubles the window of bits below the top bit that are set).  (Size 0 wraps in the C++ code — `_capacity` becomes 0 —
+    and is outside: the pool never asks for it.) -/
+theorem queue_ctor_capacity_is_ceilPow2 (q : Nat) (h1 : 1 ≤ q) (h2 : q ≤ 2 ^ 32) : queueCtorCapacity q = ceilPow2 q := by
+  have e : queueCtorCapacity q = smear5 (q - 1) + 1 := rfl
+  rw [e, smeared_is_ceilPow2 (smear5_smeared (q - 1)) (by omega)]
+  congr 1
+  omega
 
 /-- `new ThreadPool(min, max, q)`: member initialisers and the `_maxThreads < 3` clamp are the model's `mkPool` -/
 theorem pool_ctor_is_mkPool (q mn mx : Nat) : mkPool q mn mx = poolCtor mn mx q := by
@@ -311,6 +326,124 @@ theorem run_retire_clock_is_translated (s : State) (t : Tid) (th : Thread) (p : 
       some (th.cont (if runCondRetireClock (clockMs s / 1024) p.idleReset then [.runRetLock] else [])) := by
   simp only [stepFrame, hp, runCondRetireClock]
   by_cases h : clockMs s / 1024 - p.idleReset > 1 <;> simp [h, setThread, upd]
+
+/-! ## Future.hpp: `Future<void>` members, `Future<void>::set`, `Future<A>` conversion / destructor, the two `proc` templates -/
+
+/-- first frame of a modelled callee, for the Signal / the object of future `f` -/
+def calleeFrame (f : Nat) : Callee → Frame
+  | .sigSet => .sSetLock (f + 2)
+  | .sigReset => .sRstLock (f + 2)
+  | .sigWait => .sWaitLock (f + 2)
+  | .futJoin => .join f
+
+/-- frames a translated step of a member of future `f` leaves on the stack (`retOfPc` = the frame of a return address inside the body) -/
+def futFrames (f : Nat) (retOfPc : Nat → List Frame) {L R : Type} : GStep L R → List Frame
+  | .ret _ _ => []
+  | .goto n _ => retOfPc n
+  | .call fs nx _ => fs.map (calleeFrame f) ++ (match nx with | some n => retOfPc n | none => [])
+  | .stuck => []
+
+/-- value returned by a translated step -/
+def retVal {L R : Type} (d : R) : GStep L R → R
+  | .ret v _ => v
+  | _ => d
+
+theorem fut_ctor_is_default : futCtor = ({} : Fut) := rfl
+
+theorem state_enum_is_translated : state_idleState = 0 ∧ state_finishedState = 2 ∧ state_abortedState = 3 := ⟨rfl, rfl, rfl⟩
+
+/-- `join()`: the frame `join f` is the first translated micro-step (test of `_joinable`, then `_sig.wait(); _sig.reset();`, return
+    address = the store), the frame `joinClr f` the second (`_joinable = false`) -/
+theorem join_is_translated (s : State) (t : Tid) (th : Thread) (f : Nat) :
+    (futJoinStep (s.futs f) 0 {}).1 = s.futs f ∧
+    (stepFrame s t th (.join f)).1 =
+      setThread s t (th.cont (futFrames f (fun n => if n = 1 then [.joinClr f] else []) (futJoinStep (s.futs f) 0 {}).2)) := by
+  simp only [stepFrame, futJoinStep]
+  by_cases h : (s.futs f).joinable = true <;> simp [h, futFrames, calleeFrame]
+
+theorem join_clear_is_translated (s : State) (t : Tid) (th : Thread) (f : Nat) (L : FutJoinL) :
+    (stepFrame s t th (.joinClr f)).1 =
+      setThread (setFut s f (futJoinStep (s.futs f) 1 L).1) t (th.cont (futFrames f (fun _ => []) (futJoinStep (s.futs f) 1 L).2)) := by
+  simp [stepFrame, futJoinStep, futFrames]
+
+/-- `abort()`: the client op stores `_aborting = true` (and sets the ghost `abortReq`) -/
+theorem abort_is_translated (s : State) (t : Tid) (th : Thread) (f : Nat) (rest : List ClientOp) (hs : th.script = .abort f :: rest) :
+    (stepFrame s t th .cNext).1.futs f = { (futAbortStep (s.futs f) 0 {}).1 with abortReq := true } := by
+  simp [stepFrame, hs, futAbortStep, setThread, setFut, upd]
+
+/-- `isAborting() / isFinished() / isAborted()` as the `query` op of the model prints them -/
+theorem flags_are_translated (s : State) (t : Tid) (th : Thread) (f : Nat) (rest : List ClientOp) (hs : th.script = .query f :: rest) :
+    (stepFrame s t th .cNext).2 =
+      [s!"E {t} query {futName f} aborted={if retVal false (futIsAbortedStep (s.futs f) 0 {}).2 then 1 else 0} finished={if retVal false (futIsFinishedStep (s.futs f) 0 {}).2 then 1 else 0} aborting={if retVal false (futIsAbortingStep (s.futs f) 0 {}).2 then 1 else 0}"] := by
+  simp only [stepFrame, hs, futIsAbortedStep, futIsFinishedStep, futIsAbortingStep, retVal, if_true]
+  by_cases h3 : (s.futs f).state = 3 <;> by_cases h2 : (s.futs f).state = 2 <;> cases ha : (s.futs f).aborting <;> simp [h3, h2, ha]
+
+/-- `~Future()` = `join()` and then the members die (`destroyF`): the `destroy` op and the end of a client -/
+theorem destructor_is_translated (s : State) (t : Tid) (th : Thread) (f : Nat) (rest : List ClientOp) (hs : th.script = .destroy f :: rest) :
+    (stepFrame s t th .cNext).1.threads t =
+      some ({ th with script := rest }.cont (futFrames f (fun _ => []) (futDtorStep (s.futs f) 0 {}).2 ++ [Frame.destroyF f, Frame.cNext])) ∧
+    (futADtorStep (s.futs f) 0 {}).2 = .call [.futJoin] none {} := by
+  simp [stepFrame, hs, futDtorStep, futADtorStep, futFrames, calleeFrame, setThread, upd]
+
+/-- `Future<void>::set()`: `pSetRd` reads `_aborting` (first micro-step), `pSetX` exchanges `_state` with the enumerator chosen by it
+    (second micro-step), then `_sig.set()` (frame `pSig` pushes it, and below it the `delete` of `proc`) -/
+theorem set_is_translated (s : State) (t : Tid) (th : Thread) (c : Nat) (r : CallRec) (hc : s.calls c = some r) (ab : Bool) (L : FutSetL)
+    (hL : L.x0 = ab) :
+    (∃ L1, futSetStep (s.futs r.fut) 0 {} = (s.futs r.fut, .goto 1 L1) ∧
+        (stepFrame s t th (.pSetRd c)).1 = setThread s t (th.cont [.pSetX c L1.x0])) ∧
+    (stepFrame s t th (.pSetX c ab)).1.futs r.fut = (futSetStep (s.futs r.fut) 1 L).1 ∧
+    (stepFrame s t th (.pSetX c ab)).1.threads t = some (th.cont [.pSig c]) ∧
+    (stepFrame s t th (.pSig c)).1 =
+      setThread s t (th.cont (futFrames r.fut (fun _ => []) (futSetStep (s.futs r.fut) 1 L).2 ++ [.pDelete c])) := by
+  refine ⟨⟨{ x0 := (s.futs r.fut).aborting }, ?_, ?_⟩, ?_, ?_, ?_⟩
+  · simp [futSetStep]
+  · simp [stepFrame, hc]
+  · cases ab <;> simp [stepFrame, hc, futSetStep, hL, setThread, setFut, upd]
+  · simp [stepFrame, hc, setThread, setFut, upd]
+  · simp [stepFrame, hc, futSetStep, futFrames, calleeFrame]
+
+/-- `Future<A>::operator const A&`: `future.join()` and then the read of `result` (frame `evResult`) -/
+theorem result_conversion_is_translated (s : State) (t : Tid) (th : Thread) (f : Nat) (rest : List ClientOp) (hs : th.script = .result f :: rest) :
+    (stepFrame s t th .cNext).1.threads t =
+      some ({ th with script := rest }.cont
+        (futFrames f (fun n => if n = 1 then [.evResult f] else []) (futAResultStep (s.futs f) 0 {}).2 ++ [Frame.cNext])) ∧
+    (stepFrame s t th (.evResult f)).2 =
+      [s!"E {t} result {futName f} {match retVal none (futAResultStep (s.futs f) 1 {}).2 with | some v => toString v | none => "unset"}"] := by
+  refine ⟨by simp [stepFrame, hs, futAResultStep, futFrames, calleeFrame, setThread, upd], ?_⟩
+  simp only [stepFrame, futAResultStep, retVal]
+  cases (s.futs f).result <;> simp
+
+/-- the order of the actions of the two `proc` templates: body (with the result store for `Future<A>`), `set()`, `delete` — and the
+    model's frames follow it: `pBody → pStore` (stores `result` for the futures `f0…f7` = `Future<A>`, nothing for `g0…g7` =
+    `Future<void>`) `→ pSetRd` (= `set()`, above) `… pSig → pDelete` -/
+theorem proc_order_is_translated (s : State) (t : Tid) (th : Thread) (c : Nat) (r : CallRec) (hc : s.calls c = some r) :
+    procA = [.bodyIntoResult, .set, .deleteRecord] ∧ procVoid = [.body, .set, .deleteRecord] ∧
+    (stepFrame s t th (.pCall c)).1.threads t = some (th.cont [.pBody c]) ∧
+    (stepFrame s t th (.pBody c)).1 = setThread s t (th.cont [.pStore c]) ∧
+    (stepFrame s t th (.pStore c)).1.threads t = some (th.cont [.pSetRd c]) ∧
+    ((stepFrame s t th (.pStore c)).1.futs r.fut).result = (if r.fut < 8 then some (r.a * 100 + r.b) else (s.futs r.fut).result) ∧
+    (stepFrame s t th (.pDelete c)).1.calls c = none := by
+  refine ⟨rfl, rfl, ?_, ?_, ?_, ?_, ?_⟩
+  · simp [stepFrame, hc, setThread, upd]
+  · simp [stepFrame, hc]
+  · by_cases h : r.fut < 8 <;> simp [stepFrame, hc, h, setThread, setFut, upd]
+  · by_cases h : r.fut < 8 <;> simp [stepFrame, hc, h, setThread, setFut, upd]
+  · simp [stepFrame, hc, setThread, upd]
+
+/-- **C10, last sentence, in terms of the TRANSLATED `isFinished()` / `isAborted()`**: in every reachable state of a well-formed
+    configuration, once `join()` has returned for the current call of `f`, exactly one of the two translated query functions answers
+    `true`, and `isAborted()` does so only if `abort()` was requested since the start (`abortReq`; as a history predicate:
+    `flags_after_join_across_restarts`, PropsRestart.lean). -/
+theorem flags_after_join_translated {cfg : Config} {s : State} (hwf : cfg.WellFormed) (h : Reach cfg s) {f c : Nat}
+    (hj : (s.futs f).joinable = false) (hc : (s.futs f).curCall = some c) :
+    ((retVal false (futIsFinishedStep (s.futs f) 0 {}).2 = true ∧ retVal false (futIsAbortedStep (s.futs f) 0 {}).2 = false) ∨
+     (retVal false (futIsFinishedStep (s.futs f) 0 {}).2 = false ∧ retVal false (futIsAbortedStep (s.futs f) 0 {}).2 = true)) ∧
+    (retVal false (futIsAbortedStep (s.futs f) 0 {}).2 = true → (s.futs f).abortReq = true) := by
+  obtain ⟨h1, h2⟩ := Nstd.Future.state_after_join hwf h hj hc
+  simp only [futIsFinishedStep, futIsAbortedStep, retVal, if_true]
+  rcases h1 with h1 | h1
+  · simp [h1]
+  · simp [h1, h2 h1]
 
 /-! ## `LockFreeQueue::size` (not used by the pool; the closed ring system with arbitrary steps of other threads in between) -/
 
